@@ -1,0 +1,11 @@
+//go:build verif
+// +build verif
+
+package p2p
+
+// Accessors for the verification harness (build tag verif only).
+
+// VerifNonces returns the current receive and send nonces of the connection.
+func (sc *SecretConnection) VerifNonces() (recv, send [24]byte) {
+	return *sc.recvNonce, *sc.sendNonce
+}
